@@ -663,7 +663,11 @@ func (e *Engine) step(st *State) (forks []*State) {
 		n, ok := e.concreteInt(st, e.val(fr, in.Len), "make len")
 		c, ok2 := e.concreteInt(st, e.val(fr, in.Cap), "make cap")
 		if !ok || !ok2 {
-			unsupported("make slice with symbolic size")
+			return e.makeSliceSymbolic(st, fr, in)
+		}
+		if n < 0 || c < n {
+			e.fail(st, "panic", fmt.Sprintf("makeslice: len %d / cap %d out of range", n, c))
+			return nil
 		}
 		elem := in.Type().Underlying().(*types.Slice).Elem()
 		arr := ArrayVal{Elems: make([]Value, c)}
@@ -809,6 +813,76 @@ func (e *Engine) step(st *State) (forks []*State) {
 	}
 	if advance && !st.dead {
 		fr.ip++
+	}
+	return forks
+}
+
+// makeSliceSymbolic: make([]T, len, cap) with symbolic sizes. A negative size or cap < len is the run-time panic
+// "makeslice: len/cap out of range"; the remaining feasible sizes (<= 16) are explored one per fork.
+func (e *Engine) makeSliceSymbolic(st *State, fr *Frame, in *ssa.MakeSlice) []*State {
+	const limit = 16
+	ln := Resize(asTerm(e.val(fr, in.Len)), 64, true)
+	cp := Resize(asTerm(e.val(fr, in.Cap)), 64, true)
+	bad := Or(BVCmp("bvslt", ln, ConstBV(0, 64)), BVCmp("bvslt", cp, ln))
+	if !bad.IsFalse() {
+		b := st.clone()
+		b.pc = append(b.pc, bad)
+		e.fail(b, "panic", "makeslice: len or cap out of range (negative size, or cap < len)")
+	}
+	big := BVCmp("bvsgt", cp, ConstBV(limit, 64))
+	if r := e.S.Check(st.pc, And(Not(bad), big)); r != Unsat {
+		e.S.EndModel()
+		unsupported("make slice with a symbolic size that may exceed %d", limit)
+	}
+	e.S.EndModel()
+	type alt struct {
+		n, c int
+		cond *Term
+	}
+	var live []alt
+	for c := 0; c <= limit; c++ {
+		cc := Eq(cp, ConstBV(uint64(c), 64))
+		if r := e.S.Check(st.pc, And(Not(bad), cc)); r == Unsat {
+			e.S.EndModel()
+			continue
+		}
+		e.S.EndModel()
+		for n := 0; n <= c; n++ {
+			cond := And(cc, Eq(ln, ConstBV(uint64(n), 64)))
+			if cond.IsFalse() {
+				continue
+			}
+			if !cond.IsTrue() {
+				r := e.S.Check(st.pc, cond)
+				e.S.EndModel()
+				if r == Unsat {
+					continue
+				}
+			}
+			live = append(live, alt{n, c, cond})
+		}
+	}
+	if len(live) == 0 {
+		st.dead = true
+		return nil
+	}
+	elem := in.Type().Underlying().(*types.Slice).Elem()
+	var forks []*State
+	for k, a := range live {
+		tgt := st
+		if k < len(live)-1 {
+			tgt = st.clone()
+			forks = append(forks, tgt)
+		}
+		if !a.cond.IsTrue() {
+			tgt.pc = append(tgt.pc, a.cond)
+		}
+		arr := ArrayVal{Elems: make([]Value, a.c)}
+		for i := range arr.Elems {
+			arr.Elems[i] = zeroValue(elem)
+		}
+		tgt.top().regs[in] = SliceVal{Obj: tgt.alloc(arr), Len: a.n, Cap: a.c}
+		tgt.top().ip++
 	}
 	return forks
 }
